@@ -116,4 +116,30 @@ def cbcCS2 (k : Cipher) (iv : Block) (M : List Nat) : List Block :=
 /-- what CTS_CBC transmits: IV ‖ CBC-CS2 -/
 def cbcCts (k : Cipher) (iv : Block) (M : List Nat) : List Nat := iv ++ concat (cbcCS2 k iv M)
 
+/-! #### decryption of the ciphertext-stealing variants -/
+
+/-- ECB-CTS decryption is the same construction with CIPH⁻¹: D_{n-1} = CIPH⁻¹(C_{n-1}) = P*_n ‖ tail,
+    P_{n-1} = CIPH⁻¹(C*_n ‖ tail) -/
+def ecbCtsInv (k : Cipher) (C : List Nat) : List Nat := concat (ecbCtsBlocks ⟨k.len, k.D, k.E⟩ (blocks k.len C))
+
+/-- Addendum, CBC-CS1-Decrypt on C_1 … C_{n-2}, C*_{n-1} (d bytes), C_n:
+    Z = CIPH⁻¹(C_n); C_{n-1} = C*_{n-1} ‖ LSB_{b-d}(Z); P_1 … P_{n-1} = CBC-Decrypt(C_1 … C_{n-1});
+    P*_n = C*_{n-1} ⊕ MSB_d(Z) -/
+def cbcCS1Decrypt (k : Cipher) (iv : Block) (head : List Block) (cstar cn : Block) : List Block :=
+  let z := k.D cn
+  let d := cstar.length
+  cbcDecrypt k iv (head ++ [cstar ++ z.drop d]) ++ [xor cstar (z.take d)]
+
+/-- CBC-CS2-Decrypt of a byte string: a block multiple is plain CBC; otherwise the string is
+    C_1 … C_{n-2} C_n C*_{n-1} (last two swapped back, then CS1) -/
+def cbcCS2Inv (k : Cipher) (iv : Block) (C : List Nat) : List Nat :=
+  if C.length % k.len = 0 then concat (cbcDecrypt k iv (blocks k.len C))
+  else
+    match (blocks k.len C).reverse with
+    | cstar :: cn :: revhead => concat (cbcCS1Decrypt k iv revhead.reverse cstar cn)
+    | _ => []        -- fewer than two blocks: not a ciphertext of this mode
+
+/-- inverse of `cbcCts`: the first block of the input is the IV -/
+def cbcCtsInv (k : Cipher) (C : List Nat) : List Nat := cbcCS2Inv k (C.take k.len) (C.drop k.len)
+
 end Spec.Mode
